@@ -151,7 +151,7 @@ def main():
             "evidence_file": "evidence/%s.json" % pid,
             "replay_cmd_template": "./check %s --replay {path}" % pid,
             "engine": "tlc-trace-validation",
-            "level_claimed": {"category": "fault_enumeration" if pid == "C18" else "model_checking", "text": c["text"], "design_ref": c["ref"]},
+            "level_claimed": {"category": "model_checking", "text": c["text"], "design_ref": c["ref"]},
             "level_note": COMMON_NOTE,
             "technique": c["technique"],
         })
